@@ -299,8 +299,7 @@ class UnitSystemManager(Singleton):
         del self._unit_systems[unit_system_id]
 
         # If the current unit system was removed, set another system as current
-        assert self._current is not None
-        if self._current.GetId() == unit_system_id:
+        if self._current is not None and self._current.GetId() == unit_system_id:
             available = list(self.GetUnitSystems().values())
 
             if available:
